@@ -89,6 +89,15 @@ def qualifier(inv, case, rec):
             defined = [(x.get('loc'), x.get('tag'), x.get('dur')) for x in sh.get('recharge', {}).get('stations', [])]
             if used and set(used) <= set(defined) and any(used.count(x) > defined.count(x) for x in set(used)):
                 return 'one-recharge-station-of-the-shift-used-twice'
+    if inv == 'PartitionJobs' and case.get('problem', {}).get('plan', {}).get('relations') and case.get('init') and case['id'].endswith('j'):
+        # warm start with a relation job listed as unassigned in the initial solution: that very job is served AND still listed
+        served = {a['jix'] for t in rec.get('tours', []) for a in t['flat'] if a.get('jix', 0) > 0}
+        listed = {u['jix'] for u in rec.get('unassigned', [])}
+        victims = {u['jobId'] for u in (case['init'].get('unassigned') or [])}
+        both = {rec['jobs'][j - 1]['id'] for j in served & listed}
+        lost = [j for j in range(1, len(rec.get('jobs', [])) + 1) if j not in served and j not in listed]
+        if both and both <= victims and not lost:
+            return 'warm-start-relation-job-served-and-still-unassigned'
     if inv == 'PartitionJobs' and case.get('problem', {}).get('plan', {}).get('relations') and not case.get('init'):
         served = {a['jix'] for t in rec.get('tours', []) for a in t['flat'] if a.get('jix', 0) > 0}
         listed = {u['jix'] for u in rec.get('unassigned', [])}
@@ -309,7 +318,7 @@ def accounting_qualifier(inv, case, rec):
         lost = [j['id'] for j in rec['jobs'] if not served[j['id']] and not listed[j['id']]]
         both = [j['id'] for j in rec['jobs'] if served[j['id']] and listed[j['id']]]
         twice = [j['id'] for j in rec['jobs'] if served[j['id']] > len(j['kinds'])]
-        if lost and (both or twice):
+        if lost:
             return 'relation-problem-jobs-lost'
     return 'general'
 
